@@ -43,7 +43,7 @@ InvOf(name) == IF name \in BaseVariants THEN "UnprunedEqualsEval"
 
 IsText == Kind = "text"
 \* rows of the table: <<id, val, frag, off>>
-TRows(t) == {t.rows[i] : i \in DOMAIN t.rows}
+TRows(t) == t.rowset
 HoldsRow(p, r) == IF IsText THEN (r[2] # NULLSTR /\ HasSub(r[2], p[3])) ELSE Holds(p, Row(r[2]))
 UnknownRow(p, r) == IF IsText THEN r[2] = NULLSTR ELSE Eval(p, Row(r[2])) = "N"
 PredHasNot(p) == IF IsText THEN FALSE ELSE HasNot(p)
@@ -83,7 +83,7 @@ JudgeVariant(e, t, v) ==
           \cup (IF Cardinality(gotIds) # Cardinality(got) THEN {<<inv, "rows-not-in-table", v.name>>} ELSE {})
           \cup (IF got # E THEN {<<inv, Refine(inv, cls, e.pred, missing, extra, t), v.name>>} ELSE {})
           \* the cells that come back are the cells of the table
-          \cup (IF \A i \in DOMAIN v.ids : \A r \in rows : r[1] = v.ids[i] => r[2] = v.vals[i] THEN {} ELSE {<<inv, "returned-value-differs", v.name>>})
+          \cup (IF \A i \in DOMAIN v.ids : v.ids[i] \in DOMAIN t.valOf => t.valOf[v.ids[i]] = v.vals[i] THEN {} ELSE {<<inv, "returned-value-differs", v.name>>})
 
 JudgeSearch(e, t) ==
   LET s == e.search
@@ -101,26 +101,30 @@ JudgeSearch(e, t) ==
        [] OTHER -> {<<"SearchSuperset", "unknown-answer-kind", "search">>}
 
 \* agreement with the transcription on tables with known zones (zone = rows of one fragment with the
-\* same offset div zone size); counted, never a violation.  Returns <<agree, differ>>
+\* same offset div zone size; computed once per table by ZonesOfTable); counted, never a violation.
+\* Returns <<agree, differ>>
+ZonesOfTable(e) ==
+  IF IsText \/ ~e.zoned \/ e.zone < 1 THEN {}
+  ELSE LET rows == {e.rows[i] : i \in DOMAIN e.rows}
+           keys == {<<r[3], r[4] \div e.zone>> : r \in rows}
+           zrows(k) == {r \in rows : r[3] = k[1] /\ r[4] \div e.zone = k[2]}
+           zseq(zr) == LET ss == SetToSortSeq(zr, LAMBDA a, b : a[4] < b[4]) IN [i \in DOMAIN ss |-> ss[i][2]]
+       IN {LET zr == zrows(k) z == zseq(zr) IN [ids |-> {r[1] : r \in zr}, st |-> ZMStats(z), nn |-> NonNull(z), hasNull |-> NullCount(z) > 0] : k \in keys}
 ZoneAgreement(e, t) ==
-  IF IsText \/ ~t.zoned \/ t.zone < 1 \/ e.search.kind \notin {"atmost", "exact"} \/ t.itype \notin {"zonemap", "bloomfilter"} THEN <<0, 0>>
-  ELSE LET rows == TRows(t)
-           keys == {<<r[3], r[4] \div t.zone>> : r \in rows}
-           zrows(k) == {r \in rows : <<r[3], r[4] \div t.zone>> = k}
-           zseq(k) == LET ss == SetToSortSeq(zrows(k), LAMBDA a, b : a[4] < b[4]) IN [i \in DOMAIN ss |-> ss[i][2]]
-           sIds == {e.search.ids[i] : i \in DOMAIN e.search.ids}
-           inS(k) == \E r \in zrows(k) : r[1] \in sIds
+  IF t.zones = {} \/ e.search.kind \notin {"atmost", "exact"} \/ t.itype \notin {"zonemap", "bloomfilter"} THEN <<0, 0>>
+  ELSE LET sIds == {e.search.ids[i] : i \in DOMAIN e.search.ids}
+           inS(z) == \E x \in z.ids : x \in sIds
            q == IF t.itype = "zonemap" THEN ToZM(e.pred) ELSE ToBloom(e.pred)
-           want(k) == IF t.itype = "zonemap" THEN ZMEval(ZMStats(zseq(k)), q)
-                      ELSE BloomEval(NonNull(zseq(k)), NullCount(zseq(k)) > 0, q)   \* the exact filter: a lower bound
-           agree == IF t.itype = "zonemap" THEN {k \in keys : inS(k) = want(k)} ELSE {k \in keys : want(k) => inS(k)}
-       IN IF q[1] = "none" THEN <<0, 0>> ELSE <<Cardinality(agree), Cardinality(keys) - Cardinality(agree)>>
+           want(z) == IF t.itype = "zonemap" THEN ZMEval(z.st, q)
+                      ELSE BloomEval(z.nn, z.hasNull, q)   \* the exact filter: a lower bound
+           agree == IF t.itype = "zonemap" THEN {z \in t.zones : inS(z) = want(z)} ELSE {z \in t.zones : want(z) => inS(z)}
+       IN IF q[1] = "none" THEN <<0, 0>> ELSE <<Cardinality(agree), Cardinality(t.zones) - Cardinality(agree)>>
 
 Keys == {"scenarios", "steps", "tables", "queries", "variants", "indexed", "pushdown", "searches", "atmost", "atleast", "exact",
          "nontrivial", "pruned", "zagree", "zdiffer", "qends"}
 Bump(c, k, n) == [c EXCEPT ![k] = @ + n]
 
-TInit == /\ l = 1 /\ bad = <<>> /\ cnt = [k \in Keys |-> 0] /\ tb = [rows |-> <<>>] /\ trainDel = FALSE /\ trainGap = FALSE
+TInit == /\ l = 1 /\ bad = <<>> /\ cnt = [k \in Keys |-> 0] /\ tb = [rows |-> <<>>, rowset |-> {}, valOf |-> <<>>, zones |-> {}, covered |-> <<>>, itype |-> "none"] /\ trainDel = FALSE /\ trainGap = FALSE
         /\ frags = <<>> /\ del = {} /\ idx = {} /\ cov = {} /\ hasIdx = FALSE /\ steps = 0 /\ last = [op |-> "trace"] /\ strs = <<>> /\ nid = 0
 
 AddBad(b, line, e, found) ==
@@ -136,7 +140,7 @@ TNext ==
   /\ UNCHANGED <<frags, del, idx, cov, hasIdx, steps, last, strs, nid>>
   /\ LET e == Rec[l] IN
      CASE e.ev = "reset" ->
-            /\ tb' = [rows |-> <<>>] /\ trainDel' = FALSE /\ trainGap' = FALSE
+            /\ tb' = [rows |-> <<>>, rowset |-> {}, valOf |-> <<>>, zones |-> {}, covered |-> <<>>, itype |-> "none"] /\ trainDel' = FALSE /\ trainGap' = FALSE
             /\ bad' = bad /\ cnt' = Bump(cnt, "scenarios", 1)
        [] e.ev = "step" ->
             LET fr == e.frags
@@ -149,8 +153,12 @@ TNext ==
                /\ bad' = IF e.res = "ok" THEN bad ELSE AddBad(bad, l, e, {<<"History", "step-failed", e.step.op>>})
                /\ cnt' = Bump(cnt, "steps", 1)
        [] e.ev = "table" ->
-            /\ tb' = e /\ UNCHANGED <<trainDel, trainGap>>
-            /\ bad' = IF \E i \in DOMAIN e.rows : e.rows[i][2] = -2 THEN AddBad(bad, l, e, {<<"History", "value-outside-embedding", "table">>}) ELSE bad
+            /\ tb' = [rows |-> e.rows, covered |-> e.covered, itype |-> e.itype,
+                      rowset |-> {e.rows[i] : i \in DOMAIN e.rows},
+                      valOf |-> [x \in {e.rows[i][1] : i \in DOMAIN e.rows} |-> (CHOOSE r \in {e.rows[i] : i \in DOMAIN e.rows} : r[1] = x)[2]],
+                      zones |-> ZonesOfTable(e)]
+            /\ UNCHANGED <<trainDel, trainGap>>
+            /\ bad' = IF ~IsText /\ \E i \in DOMAIN e.rows : e.rows[i][2] = -2 THEN AddBad(bad, l, e, {<<"History", "value-outside-embedding", "table">>}) ELSE bad
             /\ cnt' = Bump(cnt, "tables", 1)
        [] e.ev = "q" ->
             LET found == UNION {JudgeVariant(e, tb, e.results[i]) : i \in DOMAIN e.results} \cup JudgeSearch(e, tb)
